@@ -188,7 +188,7 @@ U_s2c_f = Unit(LOC, 'string_to_location_coordinate')
 PIPELINES.append(Pipeline('U1_coordinate_parser_value', units=[U_s2c_f], prelude=GHOST + FUNC.GHOSTS,
                           contracts={'string_to_location_coordinate': FUNC.contract(STR_PP_REQUIRES % dict(pp='data'))}, loops={'string_to_location_coordinate': FUNC.LOOPS},
                           harness='void harness(void) { const char** d; int32_t r = string_to_location_coordinate(d); __CPROVER_assert(verif_exc != 0, "canary:normal-return-reachable"); __CPROVER_assert(verif_exc == 0, "canary:throw-reachable"); }',
-                          enforce='string_to_location_coordinate', canaries=['canary:normal-return-reachable', 'canary:throw-reachable'], timeout=1500, solver='kissat', split=14,
+                          enforce='string_to_location_coordinate', canaries=['canary:normal-return-reachable', 'canary:throw-reachable'], timeout=2400, solver='kissat', split=14, tier='thorough',
                           replay=('c13_text', lambda cex, o: ['search']),
                           note='every string of the grammar (sign, up to 10 integer digits, up to 27 fraction digits, exponent of up to 5 digits, any terminator): value and acceptance against the exact decimal specification'))
 
